@@ -596,3 +596,72 @@ func genTlAllBits() *tlSchema {
 		tlDecl{name: "x1.getAltNoArgs", id: 0x0a11b179, res: "x1.Alt"})
 	return s
 }
+
+// genTlThresholds: a fixed schema whose values are taken across the internal
+// thresholds of the runtime every generated method runs on (tl/decoder.go:
+// maxPrealloc = 4096 bounds the pre-allocation of decodeVector and the buffer of
+// readN; the 253/254 switch of the length prefix; recursion): one constructor
+// per vector element kind with a field after the vector, an optional vector, long
+// byte strings, a chain of 30 nested bare types, functions carrying such values
+// as arguments and as results.
+var c09VecKinds = []struct {
+	name string
+	ty   tlTy
+}{
+	{"Int", tlTy{k: "int"}}, {"Long", tlTy{k: "long"}}, {"Int256", tlTy{k: "int256"}}, {"Bytes", tlTy{k: "bytes"}},
+	{"String", tlTy{k: "string"}}, {"Bool", tlTy{k: "bool"}}, {"Nat", tlTy{k: "nat"}},
+	{"Leaf", tlTy{k: "bare", ref: "x1.leaf"}}, {"Alt", tlTy{k: "boxed", ref: "x1.Alt"}},
+}
+
+const c09ChainDepth = 30
+
+func genTlThresholds() *tlSchema {
+	s := &tlSchema{}
+	id := uint32(0x7e570000)
+	add := func(name string, fs []tlField, res string) {
+		id++
+		s.types = append(s.types, tlDecl{name: name, id: id, fields: fs, res: res})
+	}
+	add("liteServer.error", []tlField{{name: "code", ty: tlTy{k: "int"}}, {name: "message", ty: tlTy{k: "string"}}}, "liteServer.Error")
+	add("x1.leaf", []tlField{{name: "a", ty: tlTy{k: "int"}}}, "x1.Leaf")
+	add("x1.altA", []tlField{{name: "p", ty: tlTy{k: "long"}}}, "x1.Alt")
+	add("x1.altB", nil, "x1.Alt")
+	for i := range c09VecKinds {
+		k := c09VecKinds[i]
+		add("x1.vec"+k.name, []tlField{{name: "v", ty: tlTy{k: "vector", elem: &c09VecKinds[i].ty}}, {name: "tail", ty: tlTy{k: "int"}}}, "x1.Vec"+k.name)
+	}
+	add("x1.vecOpt", []tlField{{name: "mode", ty: tlTy{k: "nat"}}, {name: "v", hasCond: true, cond: "mode", bit: 3, ty: tlTy{k: "vector", elem: &c09VecKinds[1].ty}}, {name: "tail", ty: tlTy{k: "int"}}}, "x1.VecOpt")
+	add("x1.blob", []tlField{{name: "data", ty: tlTy{k: "bytes"}}, {name: "s", ty: tlTy{k: "string"}}, {name: "tail", ty: tlTy{k: "int"}}}, "x1.Blob")
+	add("x1.n0", []tlField{{name: "a", ty: tlTy{k: "int"}}}, "x1.N0")
+	for i := 1; i < c09ChainDepth; i++ {
+		add(fmt.Sprintf("x1.n%d", i), []tlField{{name: "c", ty: tlTy{k: "bare", ref: fmt.Sprintf("x1.n%d", i-1)}}, {name: "t", ty: tlTy{k: "int"}}}, fmt.Sprintf("x1.N%d", i))
+	}
+	fn := func(name string, fs []tlField, res string) {
+		id++
+		s.funcs = append(s.funcs, tlDecl{name: name, id: id, fields: fs, res: res})
+	}
+	fn("x1.getVecInt", nil, "x1.VecInt")
+	fn("x1.getVecLeaf", []tlField{{name: "n", ty: tlTy{k: "int"}}}, "x1.VecLeaf")
+	fn("x1.getVecAlt", nil, "x1.VecAlt")
+	fn("x1.getBlob", nil, "x1.Blob")
+	fn("x1.sendVec", []tlField{{name: "v", ty: tlTy{k: "vector", elem: &c09VecKinds[1].ty}}, {name: "tail", ty: tlTy{k: "int"}}}, "x1.Leaf")
+	fn("x1.sendBlob", []tlField{{name: "data", ty: tlTy{k: "bytes"}}, {name: "tail", ty: tlTy{k: "int"}}}, "x1.Leaf")
+	return s
+}
+
+// vector value with exactly n elements
+func (g *tlValGen) bigVector(elem tlTy, n int) sx.V {
+	items := []sx.V{sx.A("v")}
+	save := g.big
+	g.big = 0
+	for i := 0; i < n; i++ {
+		if elem.k == "bytes" || elem.k == "string" {
+			// short elements: the spec's strict reader measures the rest of the input for every byte string
+			items = append(items, sx.Bytes(g.r.Bytes(g.r.Intn(4))))
+			continue
+		}
+		items = append(items, g.value(elem, 4))
+	}
+	g.big = save
+	return sx.L(items...)
+}
